@@ -7,7 +7,7 @@ dst=/verif/seeded/$id-$lab
 wt=/tmp/seedrepo_${id}_${lab}
 git -C /repo worktree add -q --detach $wt HEAD || exit 2
 cp /repo/lib/yaml/_yaml*.so $wt/lib/yaml/
-trap 'git -C /repo worktree remove --force '$wt'; find /verif/replays -name "*.py" -newer '$wt'.stamp -delete 2>/dev/null; rm -f '$wt'.stamp' EXIT
+trap 'git -C /repo worktree remove --force '$wt'; find /verif/replays -name "*.py" -newer '$wt'.stamp -delete 2>/dev/null; rm -f '$wt'.stamp; rm -rf '$wt'.evidence' EXIT
 touch $wt.stamp
 demo_clean=$(PYTHONPATH=$wt/lib /venv/bin/python $src/$lab.demo.py >/dev/null 2>&1; echo $?)
 git -C $wt apply $src/$lab.patch.diff || { echo "$id-$lab patch does not apply"; exit 2; }
